@@ -56,6 +56,10 @@ NPQ_KERNELS = [
          branching=True, ext_scalar_fn={"lehmer_mean": ("lehmerFn", ["x", "weight"])}),
     # SHAGA._randn: one Cauchy value (function parameter `cauchy loc scale <ordinal>`) clamped to [0, 1]
     dict(name="SHAGA_randn", file="optimizers/_shaga.py", cls="SHAGA", func="_randn", params=[("u", "S1"), ("scale", "S1")], ret="S1", branching=True, cauchy=True),
+    # SHAGA._randc: Cauchy values are drawn until one lies in (0, 5/str_len]; the `while` becomes a fuel-bounded recursion (`none` when the
+    # fuel runs out before an admissible value appears)
+    dict(name="SHAGA_randc", file="optimizers/_shaga.py", cls="SHAGA", func="_randc", params=[("u", "S1"), ("scale", "S1")], ret="S1", branching=True, cauchy=True,
+         self_attrs=[("_str_len", "S1")], redraw_loop=True),
     # lehmer_mean (module-level function of optimizers/_shade.py) with power = 2: once as called with weights (SHAGA), once without (SHADE's F);
     # which branch of `if weight is None` is taken is fixed per entry (`none_params`), the other one is not translated
     dict(name="Lehmer_mean_weighted", file="optimizers/_shade.py", cls=None, func="lehmer_mean", params=[("x", "VQ"), ("weight", "VQ")], ret="S1",
@@ -435,7 +439,7 @@ class TrQ:
             if op is None:
                 raise NotRecognised("operator in " + ast.unparse(e))
             (a, ka), (b, kb) = self.E(e.left), self.E(e.right)
-            if op == "/" and not (ka in ("VQ", "S1") and kb == "S1"):
+            if op == "/" and not (ka in ("VQ", "S1", "S") and kb == "S1"):
                 raise NotRecognised("division other than by a scalar")
             if ka in ("S", "S1") and kb in ("S", "S1") and "S1" in (ka, kb):
                 return f"({a} {op} {b})", "S1"
@@ -634,11 +638,13 @@ class TrQM(TrQ):
             if k != "VQ":
                 raise NotRecognised("len of a non-vector")
             return f"{x}.length ≠ 0"
-        if isinstance(t, ast.Compare) and len(t.ops) == 1 and isinstance(t.ops[0], (ast.Gt, ast.Lt, ast.Eq)):
+        if isinstance(t, ast.BoolOp) and isinstance(t.op, ast.Or):
+            return " ∨ ".join(self.cond(v) for v in t.values)
+        if isinstance(t, ast.Compare) and len(t.ops) == 1 and isinstance(t.ops[0], (ast.Gt, ast.Lt, ast.Eq, ast.LtE)):
             (a, ka), (b, kb) = self.E(t.left), self.E(t.comparators[0])
             if ka not in ("S", "S1") or kb not in ("S", "S1"):
                 raise NotRecognised("condition kinds")
-            return f"{a} {'>' if isinstance(t.ops[0], ast.Gt) else '<' if isinstance(t.ops[0], ast.Lt) else '='} {b}"
+            return f"{a} {'>' if isinstance(t.ops[0], ast.Gt) else '<' if isinstance(t.ops[0], ast.Lt) else '≤' if isinstance(t.ops[0], ast.LtE) else '='} {b}"
         x, k = self.E(t)
         if k == "B":
             return f"{x} = true"
@@ -669,6 +675,23 @@ class TrQM(TrQ):
                 continue
             if isinstance(st, ast.AnnAssign) and st.value is None:
                 continue
+            # value = draw; while <bad value>: value = draw   (the same draw expression; at top level, `value` declared just before)
+            if isinstance(st, ast.While) and self.cfg.get("redraw_loop") and not st.orelse and len(st.body) == 1 and isinstance(st.body[0], ast.Assign) \
+                    and len(st.body[0].targets) == 1 and isinstance(st.body[0].targets[0], ast.Name) and ind == "  ":
+                v = st.body[0].targets[0].id
+                if v not in self.declared or self.env[v] != "S1" or self.loop_def is not None:
+                    raise NotRecognised("redraw loop variable")
+                n0, d0 = len(self.lines), self.draws
+                c = self.cond(st.test)
+                x, k = self.E(st.body[0].value)
+                if len(self.lines) != n0 or self.draws != d0 + 1 or k != "S1" or self.draws != 2:
+                    raise NotRecognised("redraw loop body")
+                # the draw inside the loop carries the running ordinal `k`
+                x = x.replace(f" {d0})", " k)")
+                self.loop_def = (v, c, x)
+                self.lines.append(f"{ind}let t_loop ← {self.cfg['name']}.loop LOOPARGS fuel {v} 1")
+                self.lines.append(f"{ind}{v} := t_loop")
+                continue
             if isinstance(st, ast.If) and isinstance(st.test, ast.Compare) and isinstance(st.test.left, ast.Name) and len(st.test.ops) == 1 \
                     and isinstance(st.test.ops[0], ast.Is) and is_const(st.test.comparators[0], None) and st.test.left.id in self.cfg.get("none_params", {}):
                 # `if p is None: ... else: ...` for a parameter whose None-ness is fixed by this entry: only that branch is translated
@@ -695,6 +718,7 @@ class TrQM(TrQ):
             raise NotRecognised("parameters")
         assigned = {t.id for st in ast.walk(self.fn) if isinstance(st, ast.Assign) for t in st.targets if isinstance(t, ast.Name)}
         self.declared = set()
+        self.loop_def = None
         for p, _ in plist:
             if p in assigned:
                 self.lines.append(f"  let mut {p} := {p}")
@@ -707,9 +731,17 @@ class TrQM(TrQ):
         fnp = [f"({lean} : " + " → ".join(["List Rat"] * len(names)) + " → Rat)" for lean, names in cfg.get("ext_scalar_fn", {}).values()]
         if cfg.get("cauchy"):
             fnp.append("(cauchy : Rat → Rat → Nat → Rat)")
-        params = fnp + [f"({p} : {lean_k[k_]})" for p, k_ in plist]
+        params = fnp + [f"(self{a} : {lean_k[k_]})" for a, k_ in cfg.get("self_attrs", [])] + [f"({p} : {lean_k[k_]})" for p, k_ in plist]
+        loop_txt = ""
+        if self.loop_def is not None:
+            v, c, x = self.loop_def
+            names = " ".join(q.split(" : ")[0].lstrip("(") for q in params)
+            loop_txt = (f"def {cfg['name']}.loop " + " ".join(params) + " : Nat → Rat → Nat → Option Rat\n"
+                        f"  | 0, _, _ => none\n  | fuel + 1, {v}, k => if {c} then {cfg['name']}.loop {names} fuel {x} (k + 1) else some {v}\n\n")
+            self.lines = [l.replace("LOOPARGS", names) for l in self.lines]
+            params = params + ["(fuel : Nat)"]
         return ("/- GENERATED by harness/extract/np2lean.py from src/thefittest/" + cfg["file"] + f" ({(cfg['cls'] + '.') if cfg['cls'] else ''}{cfg['func']}) — do not edit -/\n"
-                + "import TFV.Model.NpQ\nnamespace TFV.Generated.Src\nopen TFV\n\n"
+                + "import TFV.Model.NpQ\nnamespace TFV.Generated.Src\nopen TFV\n\n" + loop_txt
                 + f"def {cfg['name']} " + " ".join(params) + " : Option Rat := do\n" + "\n".join(self.lines) + "\n\nend TFV.Generated.Src\n")
 
 
